@@ -4,7 +4,10 @@ C12 — helper lemmas for Props/C12.lean (core Lean only).
   * string layer: `pieces`/`joinSemi`/`nameOf`/`cfg` on well-formed `configs_if` entries;
   * `walk_struct`: effect of the fold on a family tree (stack = `drop (loss t)`, result set grows, only
     the tree's macros become mentioned);
-  * `walk_cover`: every region of a tree accepted by `safeItems` is live in a configuration of the result.
+  * `walk_cover`: every region of a tree accepted by `safeItems` is live in a configuration of the result;
+  * `getConfigs_no_undef`, `defines_currentConfig`: -U / -D;
+  * `walk_added`, `walk_uncov`: which configurations a stretch of the fold adds, and necessity of `safeItems`
+    (a tree it rejects has a region that is live in no configuration of the result).
 -/
 import Cppcheck.Model.Configs
 set_option linter.unusedSimpArgs false
@@ -544,6 +547,26 @@ theorem else_post {fl : Flags} {inp : Inp} {s2 : St} {k : Kind} {m : Str} {nd : 
         · exact Or.inl (Or.inr ⟨e', List.mem_of_mem_tail h', hne, hx⟩)
 
 
+theorem else_ret {fl : Flags} {inp : Inp} {s2 : St} {k : Kind} {m : Str} {nd : List Str} (hud : inp.userDefines = [])
+    (g : Good s2) (hn : s2.ifndefs = nentry fl k m :: nd) (hm : cls fl k = .neg → Fresh inp s2 m) :
+    ∀ c ∈ (stepElse fl inp s2).ret, c ∈ s2.ret ∨ (cls fl k = .neg ∧ c = cfg (m :: pop s2.ifs) []) := by
+  intro c hc
+  cases hcl : cls fl k with
+  | neg =>
+    have hn' : s2.ifndefs = m :: nd := by simpa [nentry, hcl] using hn
+    rw [stepElse_push hud hn' (hm hcl)] at hc
+    rcases mem_setInsert.mp hc with h | h
+    · exact Or.inr ⟨rfl, h⟩
+    · exact Or.inl h
+  | pos =>
+    have hn' : s2.ifndefs = [] :: nd := by simpa [nentry, hcl] using hn
+    rw [stepElse_nopush hud hn' g.empty] at hc
+    exact Or.inl hc
+  | nd =>
+    have hn' : s2.ifndefs = [] :: nd := by simpa [nentry, hcl] using hn
+    rw [stepElse_nopush hud hn' g.empty] at hc
+    exact Or.inl hc
+
 theorem endif_post {s2 : St} {e n : Str} {ifs nd : List Str} {a : Nat} (g : Good s2)
     (hi : s2.ifs = List.drop a (e :: ifs)) (hn : s2.ifndefs = n :: nd) :
     let s3 := stepEndif s2
@@ -612,6 +635,7 @@ structure CondFacts (fl : Flags) (inp : Inp) (s : St) (k : Kind) (m : Str) (thn 
   ifs1 : (stepOpen fl inp s k m).ifs = entry fl k m :: s.ifs
   ret1 : ∀ c ∈ s.ret, c ∈ (stepOpen fl inp s k m).ret
   cfg1 : cfg (entry fl k m :: s.ifs) [] ∈ (stepOpen fl inp s k m).ret
+  ret1' : ∀ c ∈ (stepOpen fl inp s k m).ret, c = cfg (entry fl k m :: s.ifs) [] ∨ c ∈ s.ret
   fr1 : FreshAll inp (stepOpen fl inp s k m) thn.macros
   p2 : Post (loss fl thn) thn.macros (stepOpen fl inp s k m) (stThen fl inp s k m thn)
   g2 : Good (stThen fl inp s k m thn)
@@ -645,7 +669,9 @@ theorem cond_facts {fl : Flags} {inp : Inp} {s : St} {k : Kind} {m : Str} {thn r
       · exact h
       · subst h; exact absurd hx hmT)
   have p2 : Post (loss fl thn) thn.macros (stepOpen fl inp s k m) (stThen fl inp s k m thn) := ih _ g1 ndT fr1
-  refine ⟨hm, hmT, ndT, ndR, g1, o_ifs, o_ret, o_cfg, fr1, p2, p2.good g1, by rw [← o_ifs]; exact p2.ifs,
+  have o_ret' : ∀ c ∈ (stepOpen fl inp s k m).ret, c = cfg (entry fl k m :: s.ifs) [] ∨ c ∈ s.ret := by
+    intro c hc; rw [e1] at hc; exact mem_setInsert.mp hc
+  refine ⟨hm, hmT, ndT, ndR, g1, o_ifs, o_ret, o_cfg, o_ret', fr1, p2, p2.good g1, by rw [← o_ifs]; exact p2.ifs,
     by rw [← o_nd]; exact p2.ifndefs, by rw [p2.defined, o_def], ?_⟩
   intro x hx
   rcases p2.ment x hx with h | h
@@ -675,6 +701,8 @@ structure ElseFacts (fl : Flags) (inp : Inp) (s : St) (k : Kind) (m : Str) (thn 
   ifs3 : (stepElse fl inp (stThen fl inp s k m thn)).ifs = elseIfs fl k m (stThen fl inp s k m thn).ifs
   ret3 : ∀ c ∈ (stThen fl inp s k m thn).ret, c ∈ (stepElse fl inp (stThen fl inp s k m thn)).ret
   cfg3 : cls fl k = .neg → cfg (m :: pop (stThen fl inp s k m thn).ifs) [] ∈ (stepElse fl inp (stThen fl inp s k m thn)).ret
+  ret3' : ∀ c ∈ (stepElse fl inp (stThen fl inp s k m thn)).ret, c ∈ (stThen fl inp s k m thn).ret ∨
+    (cls fl k = .neg ∧ c = cfg (m :: pop (stThen fl inp s k m thn).ifs) [])
   fr3 : FreshAll inp (stepElse fl inp (stThen fl inp s k m thn)) els.macros
   p4 : Post (loss fl els) els.macros (stepElse fl inp (stThen fl inp s k m thn)) (stElse fl inp s k m thn els)
   g4 : Good (stElse fl inp s k m thn els)
@@ -713,7 +741,7 @@ theorem else_facts {fl : Flags} {inp : Inp} {s : St} {k : Kind} {m : Str} {thn e
     ih _ g3 ndE fr3
   have g4 : Good (stElse fl inp s k m thn els) := p4.good g3
   obtain ⟨k5, i5, n5, d5, r5, mm5⟩ := endif_facts g4
-  refine ⟨hmE, ndE, g3, i3, mono3, c3, fr3, p4, g4, ⟨k5, ?_, ?_, by rw [d5, p4.defined, d3, F.d2], ?_, ?_⟩, r5⟩
+  refine ⟨hmE, ndE, g3, i3, mono3, c3, else_ret hud F.g2 F.nd2 hm2, fr3, p4, g4, ⟨k5, ?_, ?_, by rw [d5, p4.defined, d3, F.d2], ?_, ?_⟩, r5⟩
   · rw [i5, p4.ifs, i3, F.ifs2, pop_drop_elseIfs]
   · rw [n5, p4.ifndefs, n3, F.nd2]; rfl
   · intro c hc; rw [r5]; exact p4.mono c (mono3 c (F.p2.mono c (F.ret1 c hc)))
@@ -1556,5 +1584,851 @@ theorem safeItems_simpleElse (fl : Flags) :
       · have hE := fun stk' P' => safeItems_noDrop fl e stk' P' (fun x hx => hm x (by simp [Items.macros, hx]))
           (by have := hl.1; simp [hk] at this; exact this.2) hn.1.2
         cases k <;> cases hfe : fl.fixElse <;> simp_all [cls]
+
+/-! ## necessity: `safe` is exactly the class of covered trees -/
+
+/-! ### which configurations a stretch of the fold adds -/
+
+/-- `c` was inserted while the bottom `ifs.drop j` of the stack was still in place: it defines all names of that part,
+    and beyond them only macros of `ms` -/
+def AddedBy (ifs : List Str) (ms : List Str) (c : Str) : Prop :=
+  ∃ j, (∀ x, defines c x = true → x ∈ names ((ifs.drop j).map nameOf) ∨ x ∈ ms) ∧
+       (∀ x ∈ names ((ifs.drop j).map nameOf), defines c x = true)
+
+theorem AddedBy.mono {ifs ms ms' : List Str} {c : Str} (h : AddedBy ifs ms c) (hs : ∀ x ∈ ms, x ∈ ms') : AddedBy ifs ms' c := by
+  obtain ⟨j, h1, h2⟩ := h
+  exact ⟨j, fun x hx => (h1 x hx).imp id (hs x), h2⟩
+
+theorem AddedBy.of_drop {ifs ms : List Str} {c : Str} {a : Nat} (h : AddedBy (ifs.drop a) ms c) : AddedBy ifs ms c := by
+  obtain ⟨j, h1, h2⟩ := h
+  refine ⟨a + j, ?_, ?_⟩ <;> rw [List.drop_drop] at * <;> assumption
+
+theorem mem_names {l : List Str} {x : Str} : x ∈ names l ↔ x ∈ l ∧ x ≠ [] := by
+  simp [names, List.mem_filter]
+
+theorem AddedBy.of_cons {e : Str} {ifs ms ms' : List Str} {c : Str} (h : AddedBy (e :: ifs) ms c)
+    (he : nameOf e ≠ [] → nameOf e ∈ ms') (hs : ∀ x ∈ ms, x ∈ ms') : AddedBy ifs ms' c := by
+  obtain ⟨j, h1, h2⟩ := h
+  cases j with
+  | zero =>
+    refine ⟨0, ?_, ?_⟩
+    · intro x hx
+      rcases h1 x hx with h | h
+      · simp only [List.drop_zero, List.map_cons, mem_names, List.mem_cons] at h
+        rcases h with ⟨h | h, hne⟩
+        · right; subst h; exact he hne
+        · left; simp only [List.drop_zero, mem_names]; exact ⟨h, hne⟩
+      · exact Or.inr (hs x h)
+    · intro x hx
+      apply h2
+      simp only [List.drop_zero, List.map_cons, mem_names, List.mem_cons] at hx ⊢
+      exact ⟨Or.inr hx.1, hx.2⟩
+  | succ j => exact ⟨j, fun x hx => (h1 x hx).imp id (hs x), h2⟩
+
+theorem cfg_addedBy {ifs : List Str} (wf : ∀ e ∈ ifs, EntryWF e) : AddedBy ifs [] (cfg ifs []) :=
+  ⟨0, fun x hx => Or.inl ((defines_cfg_names wf x).mp hx), fun x hx => (defines_cfg_names wf x).mpr hx⟩
+
+theorem walk_added (fl : Flags) (inp : Inp) (hud : inp.userDefines = []) :
+    ∀ (t : Items) (s : St), Good s → t.macros.Nodup → FreshAll inp s t.macros →
+      ∀ c ∈ (run fl inp s t.flatten).ret, c ∈ s.ret ∨ AddedBy s.ifs t.macros c
+  | .done, s, _, _, _ => fun c hc => Or.inl hc
+  | .region r rest, s, g, nd, fr => by
+    have ih := walk_added fl inp hud rest s g nd fr
+    simpa [Items.flatten, run_cons, step_region g.skip, Items.macros] using ih
+  | .cond k m thn rest, s, g, nd, fr => by
+    intro c hc
+    have nd0 : (m :: (thn.macros ++ rest.macros)).Nodup := nd
+    have fr0 : FreshAll inp s (m :: (thn.macros ++ rest.macros)) := fr
+    obtain ⟨hm_notin, nd'⟩ := List.nodup_cons.mp nd0
+    obtain ⟨ndT, ndR, disj⟩ := List.nodup_append.mp nd'
+    have F : CondFacts fl inp s k m thn rest :=
+      cond_facts hud g nd0 ndR fr0 (fun s1 g1 n1 f1 => walk_struct fl inp hud thn s1 g1 n1 f1)
+    obtain ⟨p3, r3⟩ := cond_close g F
+    have fr3 : FreshAll inp (stepEndif (stThen fl inp s k m thn)) rest.macros :=
+      p3.freshAll (fun x hx => fr0 x (by simp [hx])) (by
+        intro x hx hmem
+        rcases List.mem_cons.mp hmem with h | h
+        · subst h; exact hm_notin (List.mem_append_right _ hx)
+        · exact disj x h x hx rfl)
+    rw [run_cond k m thn rest g.skip F.g2.skip] at hc
+    have hsub : ∀ x ∈ m :: thn.macros, x ∈ (Items.cond k m thn rest).macros := by
+      intro x hx; simp only [Items.macros]; rcases List.mem_cons.mp hx with h | h <;> simp [h]
+    have hne : nameOf (entry fl k m) ≠ [] → nameOf (entry fl k m) ∈ (Items.cond k m thn rest).macros := by
+      intro h
+      rw [nameOf_entry_cls fl k F.hm.ok] at h ⊢
+      by_cases hcl : cls fl k = .neg
+      · simp [hcl] at h
+      · simp [hcl, Items.macros]
+    rcases walk_added fl inp hud rest _ (p3.good g) ndR fr3 c hc with h | h
+    · rw [r3] at h
+      rcases walk_added fl inp hud thn _ F.g1 F.ndT F.fr1 c h with h | h
+      · rcases F.ret1' c h with h | h
+        · right
+          have wf1 : ∀ e' ∈ entry fl k m :: s.ifs, EntryWF e' := by rw [← F.ifs1]; exact F.g1.wf
+          rw [h]
+          exact (cfg_addedBy wf1).of_cons hne (by simp)
+        · exact Or.inl h
+      · right
+        rw [F.ifs1] at h
+        exact h.of_cons hne (fun x hx => hsub x (List.mem_cons_of_mem _ hx))
+    · right
+      rw [p3.ifs] at h
+      exact h.of_drop.mono (fun x hx => by simp [Items.macros, hx])
+  | .condElse k m thn els rest, s, g, nd, fr => by
+    intro c hc
+    have nd0 : (m :: (thn.macros ++ els.macros ++ rest.macros)).Nodup := nd
+    have fr0 : FreshAll inp s (m :: (thn.macros ++ els.macros ++ rest.macros)) := fr
+    obtain ⟨hm_notin, nd'⟩ := List.nodup_cons.mp nd0
+    obtain ⟨ndTE, ndR, disjR⟩ := List.nodup_append.mp nd'
+    have F : CondFacts fl inp s k m thn rest :=
+      cond_facts (extra := els.macros ++ rest.macros) hud g (by simpa [List.append_assoc] using nd0) ndR
+        (by simpa [List.append_assoc] using fr0) (fun s1 g1 n1 f1 => walk_struct fl inp hud thn s1 g1 n1 f1)
+    have E : ElseFacts fl inp s k m thn els :=
+      else_facts hud fr0 nd0 F (fun s1 g1 n1 f1 => walk_struct fl inp hud els s1 g1 n1 f1)
+    have fr5 : FreshAll inp (stepEndif (stElse fl inp s k m thn els)) rest.macros :=
+      E.p5.freshAll (fun x hx => fr0 x (by simp [hx])) (by
+        intro x hx hmem
+        rcases List.mem_cons.mp hmem with h | h
+        · subst h; exact hm_notin (List.mem_append_right _ hx)
+        · exact disjR x h x hx rfl)
+    rw [run_condElse k m thn els rest g.skip F.g2.skip E.g4.skip] at hc
+    have hmem : ∀ x, x = m ∨ x ∈ thn.macros ∨ x ∈ els.macros → x ∈ (Items.condElse k m thn els rest).macros := by
+      intro x hx; simp only [Items.macros]; rcases hx with h | h | h <;> simp [h]
+    have hne : nameOf (entry fl k m) ≠ [] → nameOf (entry fl k m) ∈ (Items.condElse k m thn els rest).macros := by
+      intro h
+      rw [nameOf_entry_cls fl k F.hm.ok] at h ⊢
+      by_cases hcl : cls fl k = .neg
+      · simp [hcl] at h
+      · simp only [hcl, if_false]; exact hmem m (Or.inl rfl)
+    have wf1 : ∀ e' ∈ entry fl k m :: s.ifs, EntryWF e' := by rw [← F.ifs1]; exact F.g1.wf
+    -- configurations present after the then-branch
+    have key2 : ∀ c ∈ (stThen fl inp s k m thn).ret, c ∈ s.ret ∨ AddedBy s.ifs (Items.condElse k m thn els rest).macros c := by
+      intro c h
+      rcases walk_added fl inp hud thn _ F.g1 F.ndT F.fr1 c h with h | h
+      · rcases F.ret1' c h with h | h
+        · right; rw [h]; exact (cfg_addedBy wf1).of_cons hne (by simp)
+        · exact Or.inl h
+      · right
+        rw [F.ifs1] at h
+        exact h.of_cons hne (fun x hx => hmem x (Or.inr (Or.inl hx)))
+    rcases walk_added fl inp hud rest _ (E.p5.good g) ndR fr5 c hc with h | h
+    · rw [E.ret5] at h
+      rcases walk_added fl inp hud els _ E.g3 E.ndE E.fr3 c h with h | h
+      · rcases E.ret3' c h with h | ⟨hcl, h⟩
+        · exact key2 c h
+        · right
+          rw [h, F.ifs2, pop_drop_cons]
+          have wf3 : ∀ e' ∈ m :: List.drop (loss fl thn) s.ifs, EntryWF e' := by
+            intro e' he'
+            rcases List.mem_cons.mp he' with he' | he'
+            · subst he'; exact EntryWF.bare F.hm.ok
+            · exact g.wf e' (List.mem_of_mem_drop he')
+          have := (cfg_addedBy wf3).of_cons (ms' := (Items.condElse k m thn els rest).macros)
+            (fun _ => by rw [nameOf_ok F.hm.ok]; exact hmem m (Or.inl rfl)) (by simp)
+          exact this.of_drop
+      · right
+        rw [E.ifs3, F.ifs2] at h
+        -- the stack right after `#else` is `drop (loss thn) s.ifs` with at most one entry on top
+        unfold elseIfs at h
+        rw [pop_drop_cons] at h
+        cases hcl : cls fl k <;> simp only [hcl] at h
+        · cases hf : fl.fixElse <;> simp only [hf, if_true, if_false, List.nil_append, List.cons_append, Bool.false_eq_true] at h
+          · exact (h.of_drop).mono (fun x hx => hmem x (Or.inr (Or.inr hx)))
+          · exact (h.of_cons (ms' := (Items.condElse k m thn els rest).macros) (fun hh => absurd rfl hh)
+              (fun x hx => hmem x (Or.inr (Or.inr hx)))).of_drop
+        · exact (h.of_cons (ms' := (Items.condElse k m thn els rest).macros)
+            (fun _ => by rw [nameOf_ok F.hm.ok]; exact hmem m (Or.inl rfl)) (fun x hx => hmem x (Or.inr (Or.inr hx)))).of_drop
+        · cases hf : fl.fixElse <;> simp only [hf, if_true, if_false, List.nil_append, List.cons_append, Bool.false_eq_true] at h
+          · exact (h.of_drop).mono (fun x hx => hmem x (Or.inr (Or.inr hx)))
+          · exact (h.of_cons (ms' := (Items.condElse k m thn els rest).macros) (fun hh => absurd rfl hh)
+              (fun x hx => hmem x (Or.inr (Or.inr hx)))).of_drop
+    · right
+      rw [E.p5.ifs] at h
+      exact h.of_drop.mono (fun x hx => by simp [Items.macros, hx])
+
+
+theorem names_drop_sub {l : List Str} {j : Nat} {x : Str} (h : x ∈ names (l.drop j)) : x ∈ names l := by
+  rw [mem_names] at *; exact ⟨List.mem_of_mem_drop h.1, h.2⟩
+
+theorem defines_false_of_addedBy {ifs ms : List Str} {c Y : Str} (h : AddedBy ifs ms c) (h1 : Y ∉ ms)
+    (h2 : Y ∉ names (ifs.map nameOf)) : defines c Y = false := by
+  obtain ⟨j, hu, _⟩ := h
+  cases hd : defines c Y with
+  | false => rfl
+  | true =>
+    rcases hu Y hd with h | h
+    · rw [List.map_drop] at h; exact absurd (names_drop_sub h) h2
+    · exact absurd h h1
+
+/-- a configuration that defines the name on top of the stack was inserted while the whole stack was in place -/
+theorem addedBy_top {e Y : Str} {ifs ms : List Str} {c : Str} (h : AddedBy (e :: ifs) ms c) (hn : nameOf e = Y)
+    (hd : defines c Y = true) (h1 : Y ∉ ms) (h2 : Y ∉ names (ifs.map nameOf)) :
+    (∀ x ∈ names (ifs.map nameOf), defines c x = true) ∧
+    (∀ x, defines c x = true → x ∈ names (ifs.map nameOf) ∨ x = Y ∨ x ∈ ms) := by
+  obtain ⟨j, hu, hl⟩ := h
+  cases j with
+  | succ j =>
+    exfalso
+    rcases hu Y hd with h | h
+    · simp only [List.drop_succ_cons, List.map_drop] at h; exact h2 (names_drop_sub h)
+    · exact h1 h
+  | zero =>
+    simp only [List.drop_zero, List.map_cons, hn] at hu hl
+    constructor
+    · intro x hx
+      apply hl
+      rw [mem_names] at hx ⊢
+      exact ⟨List.mem_cons_of_mem _ hx.1, hx.2⟩
+    · intro x hx
+      rcases hu x hx with h | h
+      · rw [mem_names] at h
+        rcases List.mem_cons.mp h.1 with h' | h'
+        · exact Or.inr (Or.inl h')
+        · exact Or.inl (mem_names.mpr ⟨h', h.2⟩)
+      · exact Or.inr (Or.inr h)
+
+theorem sameSet_false_witness {a b : List Str} (h : sameSet a b = false) : ∃ x, (x ∈ a ∧ x ∉ b) ∨ (x ∈ b ∧ x ∉ a) := by
+  apply Classical.byContradiction
+  intro hne
+  have : sameSet a b = true := by
+    rw [sameSet_iff]
+    intro x
+    constructor
+    · intro hx; apply Classical.byContradiction; intro hb; exact hne ⟨x, Or.inl ⟨hx, hb⟩⟩
+    · intro hx; apply Classical.byContradiction; intro ha; exact hne ⟨x, Or.inr ⟨hx, ha⟩⟩
+  rw [this] at h; exact absurd h (by simp)
+
+/-- the core of necessity: a configuration built on a stack whose names differ from the required macros cannot
+    satisfy the requirements -/
+theorem fail_core {stk P N ms : List Str} {Y c : Str} (hs : sameSet (names stk) P = false)
+    (hPN : ∀ x ∈ names stk, x ∈ P ∨ x ∈ N) (hl : ∀ x ∈ names stk, defines c x = true)
+    (hu : ∀ x, defines c x = true → x ∈ names stk ∨ x = Y ∨ x ∈ ms) (hY : Y ∉ P) (hms : ∀ x ∈ ms, x ∉ P) :
+    ¬ sat c P N := by
+  intro hsat
+  obtain ⟨x, ⟨hx, hxP⟩ | ⟨hxP, hx⟩⟩ := sameSet_false_witness hs
+  · rcases hPN x hx with h | h
+    · exact hxP h
+    · have := hsat.2 x h; rw [hl x hx] at this; exact absurd this (by simp)
+  · rcases hu x (hsat.1 x hxP) with h | h | h
+    · exact hx h
+    · subst h; exact hY hxP
+    · exact hms x h hxP
+
+theorem emit_sub_regions (d : Str → Bool) : ∀ (t : Items) (r : Nat), r ∈ t.emit d → r ∈ t.regions
+  | .done, r, h => by simp [Items.emit] at h
+  | .region r0 rest, r, h => by
+    simp only [Items.emit, List.mem_cons] at h
+    simp only [Items.regions, List.mem_cons]
+    exact h.imp id (emit_sub_regions d rest r)
+  | .cond k m t rest, r, h => by
+    simp only [Items.emit, List.mem_append] at h
+    simp only [Items.regions, List.mem_append]
+    rcases h with h | h
+    · split at h
+      · exact Or.inl (emit_sub_regions d t r h)
+      · simp at h
+    · exact Or.inr (emit_sub_regions d rest r h)
+  | .condElse k m t e rest, r, h => by
+    simp only [Items.emit, List.mem_append] at h
+    simp only [Items.regions, List.mem_append]
+    rcases h with h | h
+    · split at h
+      · exact Or.inl (Or.inl (emit_sub_regions d t r h))
+      · exact Or.inl (Or.inr (emit_sub_regions d e r h))
+    · exact Or.inr (emit_sub_regions d rest r h)
+
+theorem not_sat_cons_P {c m : Str} {P N : List Str} (h : ¬ sat c (m :: P) N) : defines c m = false ∨ ¬ sat c P N := by
+  cases hd : defines c m with
+  | false => exact Or.inl rfl
+  | true =>
+    right; intro hs; apply h
+    refine ⟨?_, hs.2⟩
+    intro p hp
+    rcases List.mem_cons.mp hp with h' | h'
+    · rw [h']; exact hd
+    · exact hs.1 p h'
+
+theorem not_sat_cons_N {c m : Str} {P N : List Str} (h : ¬ sat c P (m :: N)) : defines c m = true ∨ ¬ sat c P N := by
+  cases hd : defines c m with
+  | true => exact Or.inl rfl
+  | false =>
+    right; intro hs; apply h
+    refine ⟨hs.1, ?_⟩
+    intro n hn
+    rcases List.mem_cons.mp hn with h' | h'
+    · rw [h']; exact hd
+    · exact hs.2 n h'
+
+/-- what the necessity induction proves for a tree -/
+def Uncov (fl : Flags) (inp : Inp) (t : Items) : Prop :=
+  ∀ (s : St) (P N : List Str), Good s → t.macros.Nodup → FreshAll inp s t.macros → t.regions.Nodup →
+    (∀ x ∈ t.macros, x ∉ P ∧ x ∉ N) → (∀ x ∈ names (s.ifs.map nameOf), x ∈ P ∨ x ∈ N) →
+    safeItems fl (s.ifs.map nameOf) P t = false →
+    ∃ r ∈ t.regions, ∃ Y ∈ t.macros, (∀ d : Str → Bool, r ∈ t.emit d → d Y = true) ∧
+      ∀ c ∈ (run fl inp s t.flatten).ret, defines c Y = true → r ∉ t.emit (defines c) ∨ ¬ sat c P N
+
+theorem fresh_not_in_stack {inp : Inp} {s : St} {m : Str} (g : Good s) (h : Fresh inp s m) :
+    m ∉ names (s.ifs.map nameOf) := by
+  intro hm
+  obtain ⟨e, he, hne, hn⟩ := (mem_names_map g.wf m).mp hm
+  exact h.notMentioned (Or.inr ⟨e, he, hne, hn⟩)
+
+theorem fresh_not_defined {inp : Inp} {s : St} {m c : Str} (h : Fresh inp s m) (hc : c ∈ s.ret) : defines c m = false := by
+  cases hd : defines c m with
+  | false => rfl
+  | true => exact absurd (Or.inl ⟨c, hc, hd⟩) h.notMentioned
+
+theorem exists_mem_of_ne_nil {l : List Nat} (h : l ≠ []) : ∃ r, r ∈ l := by
+  cases l with
+  | nil => exact absurd rfl h
+  | cons a _ => exact ⟨a, by simp⟩
+
+theorem then_fail {fl : Flags} {inp : Inp} {s : St} {k : Kind} {m : Str} {thn rest : Items} {P N : List Str}
+    (hud : inp.userDefines = []) (g : Good s) (F : CondFacts fl inp s k m thn rest) (ih : Uncov fl inp thn)
+    (hreg : thn.regions.Nodup) (hne : thn.regions ≠ [])
+    (hfr : ∀ x ∈ m :: thn.macros, x ∉ P ∧ x ∉ N)
+    (hstk : ∀ x ∈ names (s.ifs.map nameOf), x ∈ P ∨ x ∈ N)
+    (hsf : thenCheck fl k m (s.ifs.map nameOf) P (fun stk' P' => safeItems fl stk' P' thn) = false) :
+    ∃ r ∈ thn.regions, ∃ Y, (Y ∈ thn.macros ∨ (Y = m ∧ cls fl k = .pos)) ∧
+      (∀ d : Str → Bool, r ∈ thn.emit d → k.holds d m = true → d Y = true) ∧
+      ∀ c ∈ (stThen fl inp s k m thn).ret, defines c Y = true →
+        (r ∉ thn.emit (defines c) ∨ k.holds (defines c) m = false) ∨ ¬ sat c P N := by
+  have stk1 : (stepOpen fl inp s k m).ifs.map nameOf = nameOf (entry fl k m) :: s.ifs.map nameOf := by rw [F.ifs1]; rfl
+  have hmP := hfr m (by simp)
+  have hT : ∀ x ∈ thn.macros, x ∉ P ∧ x ∉ N := fun x hx => hfr x (List.mem_cons_of_mem _ hx)
+  have hmS := fresh_not_in_stack g F.hm
+  have hmne := okName_ne_nil F.hm.ok
+  unfold thenCheck at hsf
+  cases hc : cls fl k with
+  | pos =>
+    simp only [hc] at hsf
+    have hnm : nameOf (entry fl k m) = m := by rw [nameOf_entry_cls fl k F.hm.ok]; simp [hc]
+    by_cases hs : sameSet (names (s.ifs.map nameOf)) P = true
+    · have hrec : safeItems fl (m :: s.ifs.map nameOf) (m :: P) thn = false := by simpa [hs] using hsf
+      obtain ⟨r, hr, Y, hY, hd, hcf⟩ := ih (stepOpen fl inp s k m) (m :: P) N F.g1 F.ndT F.fr1 hreg
+        (fun x hx => ⟨fun h => by
+            rcases List.mem_cons.mp h with h | h
+            · subst h; exact F.hmT hx
+            · exact (hT x hx).1 h, (hT x hx).2⟩)
+        (by
+          rw [stk1, hnm, names_cons_ne hmne]
+          intro x hx
+          rcases List.mem_cons.mp hx with h | h
+          · exact Or.inl (by simp [h])
+          · exact (hstk x h).imp (List.mem_cons_of_mem _) id)
+        (by rw [stk1, hnm]; exact hrec)
+      refine ⟨r, hr, Y, Or.inl hY, fun d he _ => hd d he, ?_⟩
+      intro c hcm hdef
+      rcases hcf c hcm hdef with h | h
+      · exact Or.inl (Or.inl h)
+      · rcases not_sat_cons_P h with h | h
+        · exact Or.inl (Or.inr (by rw [holds_pos hc]; exact h))
+        · exact Or.inr h
+    · have hs' : sameSet (names (s.ifs.map nameOf)) P = false := by simpa using hs
+      obtain ⟨r, hr⟩ := exists_mem_of_ne_nil hne
+      refine ⟨r, hr, m, Or.inr ⟨rfl, rfl⟩, fun d _ hh => by rw [holds_pos hc] at hh; exact hh, ?_⟩
+      intro c hcm hdef
+      right
+      have wf1 : ∀ e' ∈ entry fl k m :: s.ifs, EntryWF e' := by rw [← F.ifs1]; exact F.g1.wf
+      have hadd : AddedBy (entry fl k m :: s.ifs) thn.macros c := by
+        rcases walk_added fl inp hud thn _ F.g1 F.ndT F.fr1 c hcm with h | h
+        · rcases F.ret1' c h with h | h
+          · rw [h]; exact (cfg_addedBy wf1).mono (by simp)
+          · rw [fresh_not_defined F.hm h] at hdef; exact absurd hdef (by simp)
+        · rw [F.ifs1] at h; exact h
+      obtain ⟨hl, hu⟩ := addedBy_top hadd hnm hdef F.hmT hmS
+      exact fail_core hs' hstk hl hu hmP.1 (fun x hx => (hT x hx).1)
+  | neg =>
+    simp only [hc] at hsf
+    have hnm : nameOf (entry fl k m) = [] := by rw [nameOf_entry_cls fl k F.hm.ok]; simp [hc]
+    obtain ⟨r, hr, Y, hY, hd, hcf⟩ := ih (stepOpen fl inp s k m) P (m :: N) F.g1 F.ndT F.fr1 hreg
+      (fun x hx => ⟨(hT x hx).1, fun h => by
+          rcases List.mem_cons.mp h with h | h
+          · subst h; exact F.hmT hx
+          · exact (hT x hx).2 h⟩)
+      (by
+        rw [stk1, hnm, names_cons_nil]
+        intro x hx
+        exact (hstk x hx).imp id (List.mem_cons_of_mem _))
+      (by rw [stk1, hnm]; exact hsf)
+    refine ⟨r, hr, Y, Or.inl hY, fun d he _ => hd d he, ?_⟩
+    intro c hcm hdef
+    rcases hcf c hcm hdef with h | h
+    · exact Or.inl (Or.inl h)
+    · rcases not_sat_cons_N h with h | h
+      · exact Or.inl (Or.inr (by rw [holds_nonpos (fl := fl) (by simp [hc])]; simp [h]))
+      · exact Or.inr h
+  | nd =>
+    simp only [hc] at hsf
+    have hnm : nameOf (entry fl k m) = m := by rw [nameOf_entry_cls fl k F.hm.ok]; simp [hc]
+    obtain ⟨r, hr, Y, hY, hd, hcf⟩ := ih (stepOpen fl inp s k m) P (m :: N) F.g1 F.ndT F.fr1 hreg
+      (fun x hx => ⟨(hT x hx).1, fun h => by
+          rcases List.mem_cons.mp h with h | h
+          · subst h; exact F.hmT hx
+          · exact (hT x hx).2 h⟩)
+      (by
+        rw [stk1, hnm, names_cons_ne hmne]
+        intro x hx
+        rcases List.mem_cons.mp hx with h | h
+        · exact Or.inr (by simp [h])
+        · exact (hstk x h).imp id (List.mem_cons_of_mem _))
+      (by rw [stk1, hnm]; exact hsf)
+    refine ⟨r, hr, Y, Or.inl hY, fun d he _ => hd d he, ?_⟩
+    intro c hcm hdef
+    rcases hcf c hcm hdef with h | h
+    · exact Or.inl (Or.inl h)
+    · rcases not_sat_cons_N h with h | h
+      · exact Or.inl (Or.inr (by rw [holds_nonpos (fl := fl) (by simp [hc])]; simp [h]))
+      · exact Or.inr h
+
+theorem names_elseStack_sub {fl : Flags} {stk : List Str} {a : Nat} {x : Str} (h : x ∈ names (elseStack fl stk a)) :
+    x ∈ names stk := by
+  unfold elseStack at h
+  rw [mem_names] at h
+  rcases List.mem_append.mp h.1 with h' | h'
+  · cases hf : fl.fixElse <;> simp [hf] at h'
+    exact absurd h' h.2
+  · exact names_drop_sub (mem_names.mpr ⟨h', h.2⟩)
+
+theorem else_fail {fl : Flags} {inp : Inp} {s : St} {k : Kind} {m : Str} {thn els rest : Items} {P N : List Str}
+    (hud : inp.userDefines = []) (g : Good s) (F : CondFacts fl inp s k m thn rest) (E : ElseFacts fl inp s k m thn els)
+    (ih : Uncov fl inp els) (hreg : els.regions.Nodup) (hne : els.regions ≠ [])
+    (hfr : ∀ x ∈ m :: (thn.macros ++ els.macros), x ∉ P ∧ x ∉ N)
+    (hstk : ∀ x ∈ names (s.ifs.map nameOf), x ∈ P ∨ x ∈ N)
+    (hsf : elseCheck fl k m (s.ifs.map nameOf) P (loss fl thn) (fun stk' P' => safeItems fl stk' P' els) = false) :
+    ∃ r ∈ els.regions, ∃ Y, (Y ∈ els.macros ∨ (Y = m ∧ cls fl k ≠ .pos)) ∧
+      (∀ d : Str → Bool, r ∈ els.emit d → k.holds d m = false → d Y = true) ∧
+      ∀ c ∈ (stElse fl inp s k m thn els).ret, defines c Y = true →
+        (r ∉ els.emit (defines c) ∨ k.holds (defines c) m = true) ∨ ¬ sat c P N := by
+  have stk3 : (stepElse fl inp (stThen fl inp s k m thn)).ifs.map nameOf =
+      if cls fl k = .neg then m :: (s.ifs.map nameOf).drop (loss fl thn) else elseStack fl (s.ifs.map nameOf) (loss fl thn) := by
+    rw [E.ifs3, F.ifs2, map_nameOf_elseIfs F.hm.ok]
+  have hmP := hfr m (by simp)
+  have hT : ∀ x ∈ thn.macros, x ∉ P ∧ x ∉ N := fun x hx => hfr x (by simp [hx])
+  have hE : ∀ x ∈ els.macros, x ∉ P ∧ x ∉ N := fun x hx => hfr x (by simp [hx])
+  have hmS := fresh_not_in_stack g F.hm
+  have hmne := okName_ne_nil F.hm.ok
+  have wf1 : ∀ e' ∈ entry fl k m :: s.ifs, EntryWF e' := by rw [← F.ifs1]; exact F.g1.wf
+  -- configurations present after the then-branch that define `m` (only when the `#if` pushed `m`)
+  have thenM : ∀ c ∈ (stThen fl inp s k m thn).ret, defines c m = true →
+      nameOf (entry fl k m) = m ∧ AddedBy (entry fl k m :: s.ifs) thn.macros c := by
+    intro c hcm hdef
+    have hadd : AddedBy (entry fl k m :: s.ifs) thn.macros c := by
+      rcases walk_added fl inp hud thn _ F.g1 F.ndT F.fr1 c hcm with h | h
+      · rcases F.ret1' c h with h | h
+        · rw [h]; exact (cfg_addedBy wf1).mono (by simp)
+        · rw [fresh_not_defined F.hm h] at hdef; exact absurd hdef (by simp)
+      · rw [F.ifs1] at h; exact h
+    refine ⟨?_, hadd⟩
+    apply Classical.byContradiction
+    intro hnm
+    have hnil : nameOf (entry fl k m) = [] := by
+      rw [nameOf_entry_cls fl k F.hm.ok] at hnm ⊢
+      by_cases hcl : cls fl k = .neg <;> simp_all
+    have : defines c m = false := by
+      apply defines_false_of_addedBy hadd F.hmT
+      simp only [List.map_cons, hnil, names_cons_nil]; exact hmS
+    rw [this] at hdef; exact absurd hdef (by simp)
+  unfold elseCheck at hsf
+  cases hc : cls fl k with
+  | pos =>
+    simp only [hc] at hsf
+    obtain ⟨r, hr, Y, hY, hd, hcf⟩ := ih _ P (m :: N) E.g3 E.ndE E.fr3 hreg
+      (fun x hx => ⟨(hE x hx).1, fun h => by
+          rcases List.mem_cons.mp h with h | h
+          · subst h; exact E.hmE hx
+          · exact (hE x hx).2 h⟩)
+      (by
+        rw [stk3]; simp only [hc]
+        intro x hx
+        exact (hstk x (names_elseStack_sub hx)).imp id (List.mem_cons_of_mem _))
+      (by rw [stk3]; simpa [hc] using hsf)
+    refine ⟨r, hr, Y, Or.inl hY, fun d he _ => hd d he, ?_⟩
+    intro c hcm hdef
+    rcases hcf c hcm hdef with h | h
+    · exact Or.inl (Or.inl h)
+    · rcases not_sat_cons_N h with h | h
+      · exact Or.inl (Or.inr (by rw [holds_pos hc]; exact h))
+      · exact Or.inr h
+  | neg =>
+    simp only [hc] at hsf
+    have e3 : (stepElse fl inp (stThen fl inp s k m thn)).ifs = m :: List.drop (loss fl thn) s.ifs := by
+      rw [E.ifs3, F.ifs2]; simp [elseIfs, hc, pop_drop_cons]
+    have hmS' : m ∉ names ((List.drop (loss fl thn) s.ifs).map nameOf) := by
+      intro h; rw [List.map_drop] at h; exact hmS (names_drop_sub h)
+    by_cases hs : sameSet (names ((s.ifs.map nameOf).drop (loss fl thn))) P = true
+    · have hrec : safeItems fl (m :: (s.ifs.map nameOf).drop (loss fl thn)) (m :: P) els = false := by simpa [hs] using hsf
+      obtain ⟨r, hr, Y, hY, hd, hcf⟩ := ih _ (m :: P) N E.g3 E.ndE E.fr3 hreg
+        (fun x hx => ⟨fun h => by
+            rcases List.mem_cons.mp h with h | h
+            · subst h; exact E.hmE hx
+            · exact (hE x hx).1 h, (hE x hx).2⟩)
+        (by
+          rw [stk3]; simp only [hc, if_true, names_cons_ne hmne]
+          intro x hx
+          rcases List.mem_cons.mp hx with h | h
+          · exact Or.inl (by simp [h])
+          · exact (hstk x (names_drop_sub h)).imp (List.mem_cons_of_mem _) id)
+        (by rw [stk3]; simpa [hc] using hrec)
+      refine ⟨r, hr, Y, Or.inl hY, fun d he _ => hd d he, ?_⟩
+      intro c hcm hdef
+      rcases hcf c hcm hdef with h | h
+      · exact Or.inl (Or.inl h)
+      · rcases not_sat_cons_P h with h | h
+        · exact Or.inl (Or.inr (by rw [holds_nonpos (fl := fl) (by simp [hc])]; simp [h]))
+        · exact Or.inr h
+    · have hs' : sameSet (names ((s.ifs.map nameOf).drop (loss fl thn))) P = false := by simpa using hs
+      obtain ⟨r, hr⟩ := exists_mem_of_ne_nil hne
+      refine ⟨r, hr, m, Or.inr ⟨rfl, by simp⟩, fun d _ hh => by
+        rw [holds_nonpos (fl := fl) (by simp [hc])] at hh; simpa using hh, ?_⟩
+      intro c hcm hdef
+      right
+      have wf3 : ∀ e' ∈ m :: List.drop (loss fl thn) s.ifs, EntryWF e' := by rw [← e3]; exact E.g3.wf
+      have hadd : AddedBy (m :: List.drop (loss fl thn) s.ifs) els.macros c := by
+        rcases walk_added fl inp hud els _ E.g3 E.ndE E.fr3 c hcm with h | h
+        · rcases E.ret3' c h with h | ⟨_, h⟩
+          · have := (thenM c h hdef).1
+            rw [nameOf_entry_cls fl k F.hm.ok] at this
+            simp [hc] at this
+            exact absurd this hmne
+          · rw [h, F.ifs2, pop_drop_cons]; exact (cfg_addedBy wf3).mono (by simp)
+        · rw [e3] at h; exact h
+      obtain ⟨hl, hu⟩ := addedBy_top hadd (nameOf_ok F.hm.ok) hdef E.hmE hmS'
+      rw [List.map_drop] at hl hu
+      exact fail_core hs' (fun x hx => hstk x (names_drop_sub hx)) hl hu hmP.1 (fun x hx => (hE x hx).1)
+  | nd =>
+    simp only [hc] at hsf
+    by_cases hs : sameSet (names (s.ifs.map nameOf)) P = true
+    · have hrec : safeItems fl (elseStack fl (s.ifs.map nameOf) (loss fl thn)) (m :: P) els = false := by simpa [hs] using hsf
+      obtain ⟨r, hr, Y, hY, hd, hcf⟩ := ih _ (m :: P) N E.g3 E.ndE E.fr3 hreg
+        (fun x hx => ⟨fun h => by
+            rcases List.mem_cons.mp h with h | h
+            · subst h; exact E.hmE hx
+            · exact (hE x hx).1 h, (hE x hx).2⟩)
+        (by
+          rw [stk3]; simp only [hc]
+          intro x hx
+          exact (hstk x (names_elseStack_sub hx)).imp (List.mem_cons_of_mem _) id)
+        (by rw [stk3]; simpa [hc] using hrec)
+      refine ⟨r, hr, Y, Or.inl hY, fun d he _ => hd d he, ?_⟩
+      intro c hcm hdef
+      rcases hcf c hcm hdef with h | h
+      · exact Or.inl (Or.inl h)
+      · rcases not_sat_cons_P h with h | h
+        · exact Or.inl (Or.inr (by rw [holds_nonpos (fl := fl) (by simp [hc])]; simp [h]))
+        · exact Or.inr h
+    · have hs' : sameSet (names (s.ifs.map nameOf)) P = false := by simpa using hs
+      obtain ⟨r, hr⟩ := exists_mem_of_ne_nil hne
+      refine ⟨r, hr, m, Or.inr ⟨rfl, by simp⟩, fun d _ hh => by
+        rw [holds_nonpos (fl := fl) (by simp [hc])] at hh; simpa using hh, ?_⟩
+      intro c hcm hdef
+      right
+      have hthen : c ∈ (stThen fl inp s k m thn).ret := by
+        rcases walk_added fl inp hud els _ E.g3 E.ndE E.fr3 c hcm with h | h
+        · rcases E.ret3' c h with h | ⟨hcl, _⟩
+          · exact h
+          · rw [hc] at hcl; exact absurd hcl (by simp)
+        · have : defines c m = false := by
+            apply defines_false_of_addedBy h E.hmE
+            rw [stk3]; simp only [hc]
+            exact fun hx => hmS (names_elseStack_sub hx)
+          rw [this] at hdef; exact absurd hdef (by simp)
+      obtain ⟨hnm, hadd⟩ := thenM c hthen hdef
+      obtain ⟨hl, hu⟩ := addedBy_top hadd hnm hdef F.hmT hmS
+      exact fail_core hs' hstk hl hu hmP.1 (fun x hx => (hT x hx).1)
+
+theorem emit_cond_then {k : Kind} {m : Str} {thn rest : Items} {r : Nat} (d : Str → Bool) (h2 : r ∉ rest.regions) :
+    r ∈ (Items.cond k m thn rest).emit d ↔ (k.holds d m = true ∧ r ∈ thn.emit d) := by
+  simp only [Items.emit, List.mem_append]
+  constructor
+  · rintro (h | h)
+    · split at h
+      · next hh => exact ⟨hh, h⟩
+      · simp at h
+    · exact absurd (emit_sub_regions d rest r h) h2
+  · rintro ⟨hh, h⟩; left; simp [hh, h]
+
+theorem emit_cond_rest {k : Kind} {m : Str} {thn rest : Items} {r : Nat} (d : Str → Bool) (h1 : r ∉ thn.regions) :
+    r ∈ (Items.cond k m thn rest).emit d ↔ r ∈ rest.emit d := by
+  simp only [Items.emit, List.mem_append]
+  constructor
+  · rintro (h | h)
+    · split at h
+      · exact absurd (emit_sub_regions d thn r h) h1
+      · simp at h
+    · exact h
+  · intro h; exact Or.inr h
+
+theorem emit_condElse_then {k : Kind} {m : Str} {thn els rest : Items} {r : Nat} (d : Str → Bool)
+    (h2 : r ∉ els.regions) (h3 : r ∉ rest.regions) :
+    r ∈ (Items.condElse k m thn els rest).emit d ↔ (k.holds d m = true ∧ r ∈ thn.emit d) := by
+  simp only [Items.emit, List.mem_append]
+  constructor
+  · rintro (h | h)
+    · split at h
+      · next hh => exact ⟨hh, h⟩
+      · exact absurd (emit_sub_regions d els r h) h2
+    · exact absurd (emit_sub_regions d rest r h) h3
+  · rintro ⟨hh, h⟩; left; simp [hh, h]
+
+theorem emit_condElse_else {k : Kind} {m : Str} {thn els rest : Items} {r : Nat} (d : Str → Bool)
+    (h1 : r ∉ thn.regions) (h3 : r ∉ rest.regions) :
+    r ∈ (Items.condElse k m thn els rest).emit d ↔ (k.holds d m = false ∧ r ∈ els.emit d) := by
+  simp only [Items.emit, List.mem_append]
+  constructor
+  · rintro (h | h)
+    · split at h
+      · exact absurd (emit_sub_regions d thn r h) h1
+      · next hh => exact ⟨by simpa using hh, h⟩
+    · exact absurd (emit_sub_regions d rest r h) h3
+  · rintro ⟨hh, h⟩; left; simp [hh, h]
+
+theorem emit_condElse_rest {k : Kind} {m : Str} {thn els rest : Items} {r : Nat} (d : Str → Bool)
+    (h1 : r ∉ thn.regions) (h2 : r ∉ els.regions) :
+    r ∈ (Items.condElse k m thn els rest).emit d ↔ r ∈ rest.emit d := by
+  simp only [Items.emit, List.mem_append]
+  constructor
+  · rintro (h | h)
+    · split at h
+      · exact absurd (emit_sub_regions d thn r h) h1
+      · exact absurd (emit_sub_regions d els r h) h2
+    · exact h
+  · intro h; exact Or.inr h
+
+theorem isEmpty_false_ne {l : List Nat} (h : l.isEmpty = false) : l ≠ [] := by
+  intro h'; subst h'; simp at h
+
+theorem walk_uncov (fl : Flags) (inp : Inp) (hud : inp.userDefines = []) : ∀ t : Items, Uncov fl inp t
+  | .done => by intro s P N _ _ _ _ _ _ h; simp [safeItems] at h
+  | .region r0 rest => by
+    intro s P N g nd fr hreg hfr hstk hsafe
+    have hreg0 : (r0 :: rest.regions).Nodup := hreg
+    obtain ⟨hr0, hregR⟩ := List.nodup_cons.mp hreg0
+    obtain ⟨r, hr, Y, hY, hd, hcf⟩ := walk_uncov fl inp hud rest s P N g nd fr hregR hfr hstk (by simpa [safeItems] using hsafe)
+    have hne : r ≠ r0 := fun h => hr0 (h ▸ hr)
+    refine ⟨r, List.mem_cons_of_mem _ hr, Y, hY, ?_, ?_⟩
+    · intro d he
+      simp only [Items.emit, List.mem_cons] at he
+      exact hd d (he.resolve_left hne)
+    · intro c hc hdef
+      simp only [Items.flatten, run_cons, step_region g.skip] at hc
+      rcases hcf c hc hdef with h | h
+      · left; simp only [Items.emit, List.mem_cons]; exact fun he => h (he.resolve_left hne)
+      · exact Or.inr h
+  | .cond k m thn rest => by
+    intro s P N g nd fr hreg hfr hstk hsafe
+    have nd0 : (m :: (thn.macros ++ rest.macros)).Nodup := nd
+    have fr0 : FreshAll inp s (m :: (thn.macros ++ rest.macros)) := fr
+    have hfr0 : ∀ x ∈ m :: (thn.macros ++ rest.macros), x ∉ P ∧ x ∉ N := hfr
+    have hreg0 : (thn.regions ++ rest.regions).Nodup := hreg
+    obtain ⟨hregT, hregR, hdisjR⟩ := List.nodup_append.mp hreg0
+    obtain ⟨hm_notin, nd'⟩ := List.nodup_cons.mp nd0
+    obtain ⟨ndT, ndR, disj⟩ := List.nodup_append.mp nd'
+    have F : CondFacts fl inp s k m thn rest :=
+      cond_facts hud g nd0 ndR fr0 (fun s1 g1 n1 f1 => walk_struct fl inp hud thn s1 g1 n1 f1)
+    obtain ⟨p3, r3⟩ := cond_close g F
+    have fr3 : FreshAll inp (stepEndif (stThen fl inp s k m thn)) rest.macros :=
+      p3.freshAll (fun x hx => fr0 x (by simp [hx])) (by
+        intro x hx hmem
+        rcases List.mem_cons.mp hmem with h | h
+        · subst h; exact hm_notin (List.mem_append_right _ hx)
+        · exact disj x h x hx rfl)
+    have g3 := p3.good g
+    have stk3 : (stepEndif (stThen fl inp s k m thn)).ifs.map nameOf = (s.ifs.map nameOf).drop (loss fl thn) := by
+      rw [p3.ifs, List.map_drop]
+    rw [run_cond k m thn rest g.skip F.g2.skip]
+    simp only [safeItems, Bool.and_eq_false_iff] at hsafe
+    rcases hsafe with hsafe | hsafe
+    · have hsafe' : thn.regions.isEmpty = false ∧
+          thenCheck fl k m (s.ifs.map nameOf) P (fun stk' P' => safeItems fl stk' P' thn) = false := by
+        simpa [Bool.or_eq_false_iff] using hsafe
+      obtain ⟨r, hr, Y, hYm, hd, hcf⟩ := then_fail hud g F (walk_uncov fl inp hud thn) hregT (isEmpty_false_ne hsafe'.1)
+        (fun x hx => hfr0 x (by rcases List.mem_cons.mp hx with h | h <;> simp [h])) hstk hsafe'.2
+      have hrR : r ∉ rest.regions := fun h => hdisjR r hr r h rfl
+      have hYin : Y ∈ m :: thn.macros := by
+        rcases hYm with h | ⟨h, _⟩
+        · exact List.mem_cons_of_mem _ h
+        · simp [h]
+      have hYrest : Y ∉ rest.macros := by
+        intro h
+        rcases List.mem_cons.mp hYin with h' | h'
+        · subst h'; exact hm_notin (List.mem_append_right _ h)
+        · exact disj Y h' Y h rfl
+      have hYfresh : Fresh inp s Y := fr0 Y (by rcases List.mem_cons.mp hYin with h | h <;> simp [h])
+      refine ⟨r, List.mem_append_left _ hr, Y, by
+        simp only [Items.macros]; rcases List.mem_cons.mp hYin with h | h <;> simp [h], ?_, ?_⟩
+      · intro d he
+        obtain ⟨hh, he'⟩ := (emit_cond_then d hrR).mp he
+        exact hd d he' hh
+      · intro c hc hdef
+        rcases walk_added fl inp hud rest _ g3 ndR fr3 c hc with h | h
+        · rw [r3] at h
+          rcases hcf c h hdef with (h | h) | h
+          · left; intro he; exact h ((emit_cond_then _ hrR).mp he).2
+          · left; intro he; have := ((emit_cond_then _ hrR).mp he).1; rw [h] at this; exact absurd this (by simp)
+          · exact Or.inr h
+        · have : defines c Y = false := by
+            apply defines_false_of_addedBy h hYrest
+            rw [stk3]; exact fun hx => fresh_not_in_stack g hYfresh (names_drop_sub hx)
+          rw [this] at hdef; exact absurd hdef (by simp)
+    · obtain ⟨r, hr, Y, hY, hd, hcf⟩ := walk_uncov fl inp hud rest _ P N g3 ndR fr3 hregR
+        (fun x hx => hfr0 x (by simp [hx])) (by rw [stk3]; exact fun x hx => hstk x (names_drop_sub hx))
+        (by rw [stk3]; exact hsafe)
+      have hrT : r ∉ thn.regions := fun h => hdisjR r h r hr rfl
+      refine ⟨r, List.mem_append_right _ hr, Y, by simp [Items.macros, hY], ?_, ?_⟩
+      · intro d he; exact hd d ((emit_cond_rest d hrT).mp he)
+      · intro c hc hdef
+        rcases hcf c hc hdef with h | h
+        · left; intro he; exact h ((emit_cond_rest _ hrT).mp he)
+        · exact Or.inr h
+  | .condElse k m thn els rest => by
+    intro s P N g nd fr hreg hfr hstk hsafe
+    have nd0 : (m :: (thn.macros ++ els.macros ++ rest.macros)).Nodup := nd
+    have fr0 : FreshAll inp s (m :: (thn.macros ++ els.macros ++ rest.macros)) := fr
+    have hfr0 : ∀ x ∈ m :: (thn.macros ++ els.macros ++ rest.macros), x ∉ P ∧ x ∉ N := hfr
+    have hreg0 : (thn.regions ++ els.regions ++ rest.regions).Nodup := hreg
+    obtain ⟨hregTE, hregR, hdisjR⟩ := List.nodup_append.mp hreg0
+    obtain ⟨hregT, hregE, hdisjTE⟩ := List.nodup_append.mp hregTE
+    obtain ⟨hm_notin, nd'⟩ := List.nodup_cons.mp nd0
+    obtain ⟨ndTE, ndR, disjR⟩ := List.nodup_append.mp nd'
+    obtain ⟨ndT, ndE, disjTE⟩ := List.nodup_append.mp ndTE
+    have F : CondFacts fl inp s k m thn rest :=
+      cond_facts (extra := els.macros ++ rest.macros) hud g (by simpa [List.append_assoc] using nd0) ndR
+        (by simpa [List.append_assoc] using fr0) (fun s1 g1 n1 f1 => walk_struct fl inp hud thn s1 g1 n1 f1)
+    have E : ElseFacts fl inp s k m thn els :=
+      else_facts hud fr0 nd0 F (fun s1 g1 n1 f1 => walk_struct fl inp hud els s1 g1 n1 f1)
+    have fr5 : FreshAll inp (stepEndif (stElse fl inp s k m thn els)) rest.macros :=
+      E.p5.freshAll (fun x hx => fr0 x (by simp [hx])) (by
+        intro x hx hmem
+        rcases List.mem_cons.mp hmem with h | h
+        · subst h; exact hm_notin (List.mem_append_right _ hx)
+        · exact disjR x h x hx rfl)
+    have g5 := E.p5.good g
+    have stk5 : (stepEndif (stElse fl inp s k m thn els)).ifs.map nameOf =
+        (s.ifs.map nameOf).drop (loss fl thn + loss fl els + (if dropsAtElse fl k then 1 else 0)) := by
+      rw [E.p5.ifs, List.map_drop]
+    have stk3 : (stepElse fl inp (stThen fl inp s k m thn)).ifs.map nameOf =
+        if cls fl k = .neg then m :: (s.ifs.map nameOf).drop (loss fl thn) else elseStack fl (s.ifs.map nameOf) (loss fl thn) := by
+      rw [E.ifs3, F.ifs2, map_nameOf_elseIfs F.hm.ok]
+    have hmem : ∀ x, x = m ∨ x ∈ thn.macros ∨ x ∈ els.macros ∨ x ∈ rest.macros →
+        x ∈ m :: (thn.macros ++ els.macros ++ rest.macros) := by
+      intro x hx; rcases hx with h | h | h | h <;> simp [h]
+    -- a configuration of the final set that defines a macro of the conditional was present right after `#else .. `
+    have later : ∀ (Y : Str), (Y = m ∨ Y ∈ thn.macros ∨ Y ∈ els.macros) → ∀ c ∈ (run fl inp (stepEndif (stElse fl inp s k m thn els)) rest.flatten).ret,
+        defines c Y = true → c ∈ (stElse fl inp s k m thn els).ret := by
+      intro Y hY c hc hdef
+      have hYfresh : Fresh inp s Y := fr0 Y (hmem Y (by rcases hY with h | h | h <;> simp [h]))
+      have hYrest : Y ∉ rest.macros := by
+        intro h
+        rcases hY with h' | h' | h'
+        · subst h'; exact hm_notin (List.mem_append_right _ h)
+        · exact disjR Y (List.mem_append_left _ h') Y h rfl
+        · exact disjR Y (List.mem_append_right _ h') Y h rfl
+      rcases walk_added fl inp hud rest _ g5 ndR fr5 c hc with h | h
+      · rw [E.ret5] at h; exact h
+      · have : defines c Y = false := by
+          apply defines_false_of_addedBy h hYrest
+          rw [stk5]; exact fun hx => fresh_not_in_stack g hYfresh (names_drop_sub hx)
+        rw [this] at hdef; exact absurd hdef (by simp)
+    rw [run_condElse k m thn els rest g.skip F.g2.skip E.g4.skip]
+    simp only [safeItems, Bool.and_eq_false_iff] at hsafe
+    rcases hsafe with (hsafe | hsafe) | hsafe
+    · -- the then-branch
+      have hsafe' : thn.regions.isEmpty = false ∧
+          thenCheck fl k m (s.ifs.map nameOf) P (fun stk' P' => safeItems fl stk' P' thn) = false := by
+        simpa [Bool.or_eq_false_iff] using hsafe
+      obtain ⟨r, hr, Y, hYm, hd, hcf⟩ := then_fail hud g F (walk_uncov fl inp hud thn) hregT (isEmpty_false_ne hsafe'.1)
+        (fun x hx => hfr0 x (hmem x (by rcases List.mem_cons.mp hx with h | h <;> simp [h]))) hstk hsafe'.2
+      have hrE : r ∉ els.regions := fun h => hdisjTE r hr r h rfl
+      have hrR : r ∉ rest.regions := fun h => hdisjR r (List.mem_append_left _ hr) r h rfl
+      have hYin : Y = m ∨ Y ∈ thn.macros ∨ Y ∈ els.macros := by
+        rcases hYm with h | ⟨h, _⟩
+        · exact Or.inr (Or.inl h)
+        · exact Or.inl h
+      have hYfresh : Fresh inp s Y := fr0 Y (hmem Y (by rcases hYin with h | h | h <;> simp [h]))
+      refine ⟨r, List.mem_append_left _ (List.mem_append_left _ hr), Y, hmem Y (by rcases hYin with h | h | h <;> simp [h]), ?_, ?_⟩
+      · intro d he
+        obtain ⟨hh, he'⟩ := (emit_condElse_then d hrE hrR).mp he
+        exact hd d he' hh
+      · intro c hc hdef
+        have hc4 := later Y hYin c hc hdef
+        -- was it already there after the then-branch?
+        have hthen : c ∈ (stThen fl inp s k m thn).ret := by
+          rcases walk_added fl inp hud els _ E.g3 E.ndE E.fr3 c hc4 with h | h
+          · rcases E.ret3' c h with h | ⟨hcl, h⟩
+            · exact h
+            · -- the configuration pushed at `#else` defines `m` and names of the old stack only
+              exfalso
+              have wf3 : ∀ e' ∈ m :: List.drop (loss fl thn) s.ifs, EntryWF e' := by
+                intro e' he'
+                rcases List.mem_cons.mp he' with he' | he'
+                · subst he'; exact EntryWF.bare F.hm.ok
+                · exact g.wf e' (List.mem_of_mem_drop he')
+              rw [h, F.ifs2, pop_drop_cons, defines_cfg_names wf3] at hdef
+              simp only [List.map_cons, nameOf_ok F.hm.ok, names_cons_ne (okName_ne_nil F.hm.ok), List.mem_cons] at hdef
+              rcases hdef with hdef | hdef
+              · rcases hYm with h' | ⟨_, h'⟩
+                · rw [hdef] at h'; exact F.hmT h'
+                · rw [hcl] at h'; exact absurd h' (by simp)
+              · rw [List.map_drop] at hdef; exact fresh_not_in_stack g hYfresh (names_drop_sub hdef)
+          · exfalso
+            have hYE : Y ∉ els.macros := by
+              intro h'
+              rcases hYm with h'' | ⟨h'', _⟩
+              · exact disjTE Y h'' Y h' rfl
+              · rw [h''] at h'; exact E.hmE h'
+            have : defines c Y = false := by
+              apply defines_false_of_addedBy h hYE
+              rw [stk3]
+              by_cases hcl : cls fl k = .neg
+              · simp only [hcl, if_true, names_cons_ne (okName_ne_nil F.hm.ok), List.mem_cons]
+                rintro (h' | h')
+                · rcases hYm with h'' | ⟨_, h''⟩
+                  · rw [h'] at h''; exact F.hmT h''
+                  · rw [hcl] at h''; exact absurd h'' (by simp)
+                · exact fresh_not_in_stack g hYfresh (names_drop_sub h')
+              · simp only [hcl, if_false]
+                exact fun hx => fresh_not_in_stack g hYfresh (names_elseStack_sub hx)
+            rw [this] at hdef; exact absurd hdef (by simp)
+        rcases hcf c hthen hdef with (h | h) | h
+        · left; intro he; exact h ((emit_condElse_then _ hrE hrR).mp he).2
+        · left; intro he; have := ((emit_condElse_then _ hrE hrR).mp he).1; rw [h] at this; exact absurd this (by simp)
+        · exact Or.inr h
+    · -- the else-branch
+      have hsafe' : els.regions.isEmpty = false ∧
+          elseCheck fl k m (s.ifs.map nameOf) P (loss fl thn) (fun stk' P' => safeItems fl stk' P' els) = false := by
+        simpa [Bool.or_eq_false_iff] using hsafe
+      obtain ⟨r, hr, Y, hYm, hd, hcf⟩ := else_fail hud g F E (walk_uncov fl inp hud els) hregE (isEmpty_false_ne hsafe'.1)
+        (fun x hx => hfr0 x (hmem x (by
+          rcases List.mem_cons.mp hx with h | h
+          · exact Or.inl h
+          · rcases List.mem_append.mp h with h | h <;> simp [h]))) hstk hsafe'.2
+      have hrT : r ∉ thn.regions := fun h => hdisjTE r h r hr rfl
+      have hrR : r ∉ rest.regions := fun h => hdisjR r (List.mem_append_right _ hr) r h rfl
+      have hYin : Y = m ∨ Y ∈ thn.macros ∨ Y ∈ els.macros := by
+        rcases hYm with h | ⟨h, _⟩
+        · exact Or.inr (Or.inr h)
+        · exact Or.inl h
+      refine ⟨r, List.mem_append_left _ (List.mem_append_right _ hr), Y, hmem Y (by rcases hYin with h | h | h <;> simp [h]), ?_, ?_⟩
+      · intro d he
+        obtain ⟨hh, he'⟩ := (emit_condElse_else d hrT hrR).mp he
+        exact hd d he' hh
+      · intro c hc hdef
+        rcases hcf c (later Y hYin c hc hdef) hdef with (h | h) | h
+        · left; intro he; exact h ((emit_condElse_else _ hrT hrR).mp he).2
+        · left; intro he; have := ((emit_condElse_else _ hrT hrR).mp he).1; rw [h] at this; exact absurd this (by simp)
+        · exact Or.inr h
+    · -- what follows the conditional
+      obtain ⟨r, hr, Y, hY, hd, hcf⟩ := walk_uncov fl inp hud rest _ P N g5 ndR fr5 hregR
+        (fun x hx => hfr0 x (by simp [hx])) (by rw [stk5]; exact fun x hx => hstk x (names_drop_sub hx))
+        (by rw [stk5]; exact hsafe)
+      have hrT : r ∉ thn.regions := fun h => hdisjR r (List.mem_append_left _ h) r hr rfl
+      have hrE : r ∉ els.regions := fun h => hdisjR r (List.mem_append_right _ h) r hr rfl
+      refine ⟨r, List.mem_append_right _ hr, Y, by simp [Items.macros, hY], ?_, ?_⟩
+      · intro d he; exact hd d ((emit_condElse_rest d hrT hrE).mp he)
+      · intro c hc hdef
+        rcases hcf c hc hdef with h | h
+        · left; intro he; exact h ((emit_condElse_rest _ hrT hrE).mp he)
+        · exact Or.inr h
 
 end Cppcheck.Configs
